@@ -9,6 +9,8 @@ import (
 	"os"
 	"sync"
 	"time"
+
+	"verif/sim/simhttp"
 )
 
 // The calibration world: the same clients, handlers, programs and oracles,
@@ -201,10 +203,33 @@ type realClient struct {
 }
 
 func (c *realClient) Do(req *http.Request) (*http.Response, error) {
-	if c.h2 {
-		return c.n.h2.Do(req)
+	call := simhttp.CallOf(req.Context())
+	if call != nil {
+		call.EditURL(req)
 	}
-	return c.n.h1.Do(req)
+	cl := c.n.h1
+	if c.h2 {
+		cl = c.n.h2
+	}
+	resp, err := cl.Do(req)
+	if err == nil && call != nil && call.K.DropTrailers {
+		// the intermediary that strips HTTP trailers
+		resp.Body = &trailerStripper{ReadCloser: resp.Body, resp: resp}
+	}
+	return resp, err
+}
+
+type trailerStripper struct {
+	io.ReadCloser
+	resp *http.Response
+}
+
+func (t *trailerStripper) Read(p []byte) (int, error) {
+	n, err := t.ReadCloser.Read(p)
+	if err != nil {
+		clear(t.resp.Trailer)
+	}
+	return n, err
 }
 
 func (n *realNet) close() {
